@@ -16,12 +16,12 @@ type Node struct {
 	IsL  bool
 }
 
-func A(s string) *Node      { return &Node{Atom: s} }
-func I(i int) *Node         { return &Node{Atom: strconv.Itoa(i)} }
-func L(xs ...*Node) *Node   { return &Node{List: xs, IsL: true} }
-func Q(n *Node) *Node       { return L(A("quote"), n) }
-func QS(sym string) *Node   { return L(A("quote"), A(sym)) }
-func Str(s string) *Node    { return A(LispString(s)) }
+func A(s string) *Node    { return &Node{Atom: s} }
+func I(i int) *Node       { return &Node{Atom: strconv.Itoa(i)} }
+func L(xs ...*Node) *Node { return &Node{List: xs, IsL: true} }
+func Q(n *Node) *Node     { return L(A("quote"), n) }
+func QS(sym string) *Node { return L(A("quote"), A(sym)) }
+func Str(s string) *Node  { return A(LispString(s)) }
 func Call(f string, xs ...*Node) *Node {
 	return L(append([]*Node{A(f)}, xs...)...)
 }
